@@ -325,7 +325,7 @@ func baseline(c *core.Child, d *doc, ext bool, script map[string]string) string 
 	cur.Store(br)
 	res := br.invoke("Do", ext, context.Background())
 	cur.Store(prev)
-	c.Eval(1)
+	c.Feature("baseline-executions") // not counted as evaluations: how many are needed depends on the interleavings seen
 	b := canonResult(res)
 	baseCache[key] = b
 	return b
